@@ -35,6 +35,10 @@ pub(crate) enum Ev {
     EchoB(u8),
     /// lift back-pressure, poll until nothing more happens, run the end-of-run oracle; terminal
     Quiesce,
+    /// the same with an application that polls ONLY on ingress or when poll_at names a deadline
+    /// (None = it sleeps forever); whatever is still owed to the wire when it stops, but comes out
+    /// under unconditional polling, is a stall; terminal
+    QuiesceFollow,
 }
 
 pub(crate) struct S2 {
@@ -299,6 +303,7 @@ impl Harness for S2 {
             v.push((Ev::BpOff, 0));
         }
         v.push((Ev::Quiesce, 0));
+        v.push((Ev::QuiesceFollow, 0));
         v
     }
     fn apply(&mut self, ev: &Ev, out: &mut Vec<Viol>) {
@@ -366,6 +371,62 @@ impl Harness for S2 {
                 }
                 if !quiet {
                     self.tr.machinery.push("no quiescence after 200 polls".into());
+                }
+                self.tr.finish(out);
+                self.quiesced = true;
+            }
+            Ev::QuiesceFollow => {
+                self.net.dev.tx_budget = None;
+                let mut clock = now();
+                let mut stopped = false;
+                for _ in 0..400 {
+                    if self.net.dev.rx.is_empty() {
+                        match self.net.iface.poll_at(clock, &self.net.sockets) {
+                            None => {
+                                stopped = true;
+                                break;
+                            }
+                            Some(t) => {
+                                if t > clock {
+                                    clock = t;
+                                }
+                            }
+                        }
+                    }
+                    self.net.poll_t(clock);
+                    self.capture(out);
+                }
+                if !stopped {
+                    self.tr.machinery.push("poll_at never returned None within 400 polls".into());
+                }
+                let owing = self.tr.outstanding();
+                if stopped && !owing.is_empty() {
+                    let before: Vec<String> = owing.iter().map(|&i| format!("{} ({} bytes): on the wire {:?}", self.tr.exps[i].label, self.tr.exps[i].image.len(), self.tr.exps[i].cov)).collect();
+                    let names: Vec<(String, [u8; 4])> = owing.iter().map(|&i| (self.tr.exps[i].label.clone(), self.tr.exps[i].dst)).collect();
+                    for _ in 0..200 {
+                        self.net.poll_t(clock);
+                        let got = !self.net.dev.tx.is_empty();
+                        self.capture(out);
+                        if !got && self.net.dev.rx.is_empty() && self.net.iface.poll_at(clock, &self.net.sockets).is_none() {
+                            break;
+                        }
+                    }
+                    // looked up by name again: capture() may drop never-started optional replies
+                    let recovered: Vec<&String> = names
+                        .iter()
+                        .zip(before.iter())
+                        .filter(|((l, d), _)| self.tr.exps.iter().any(|e| &e.label == l && &e.dst == d && e.complete()))
+                        .map(|(_, b)| b)
+                        .collect();
+                    if !recovered.is_empty() {
+                        out.push(Viol::new(
+                            "C12/tx/complete/stalls-when-following-poll-at",
+                            format!(
+                                "poll_at returned None (nothing queued inbound) while the stack still held untransmitted fragments: {}; polling anyway afterwards brought the rest out",
+                                recovered.iter().map(|s| s.as_str()).collect::<Vec<_>>().join("; ")
+                            ),
+                        ));
+                    }
                 }
                 self.tr.finish(out);
                 self.quiesced = true;
@@ -449,7 +510,7 @@ pub(crate) fn run_s2(rep: &mut Report, tier: Tier) {
         "s2",
         json!({"alphabet": ["Send{sock in udp0,udp1,raw; size in no-frag(18B IP payload), 2 fragments, 3 fragments}", "Poll", "Egress (one poll_egress pass)",
             "Ingress (poll_ingress_single until empty; enabled when frames are queued)", "Bp(0|1) (device refuses transmit after n frames)", "BpOff",
-            "Echo(2|3) (inbound fragmented echo request whose reply needs 2|3 fragments; enabled when the rx queue is empty)", "EchoB(2|3) (Ethernet configurations: the same request from a second pre-resolved neighbour B = 10.0.0.3 / 02:00:00:00:00:03, the reply goes to B)", "Quiesce (terminal: lift back-pressure, poll to quiescence, end-of-run oracle)"],
+            "Echo(2|3) (inbound fragmented echo request whose reply needs 2|3 fragments; enabled when the rx queue is empty)", "EchoB(2|3) (Ethernet configurations: the same request from a second pre-resolved neighbour B = 10.0.0.3 / 02:00:00:00:00:03, the reply goes to B)", "Quiesce (terminal: lift back-pressure, poll to quiescence, end-of-run oracle)", "QuiesceFollow (terminal: lift back-pressure, poll only on ingress or when poll_at names a deadline, None = stop; then the same oracle plus the stall clause)"],
             "oracle": "per captured frame: <= MTU, header checksum, on Ethernet link-layer destination = hardware address of the neighbour owning the IP destination, belongs to exactly one outstanding datagram (bound by id), bytes identical at its offset, MF consistent, no overlap/duplicate; at Quiesce: every datagram accepted by send() and every datagram whose first fragment appeared is complete exactly once; echo replies may be absent as a whole",
             "fingerprint": "verif_digest (identification counter/ids stripped) + SocketSet Debug + device budget + rx queue + outstanding-datagram model + stale fragmentation buffer image",
             "socket_tx_capacity": "2 datagrams / 512 bytes per socket; send() refusals are real (BufferFull) and leave the state unchanged"}),
